@@ -191,6 +191,15 @@ def grow_shape_of(fn):
             and ast.unparse(s.targets[0]) == "results_it"]
     if "results_it = (fn(**case) for case in cases)" not in gens:
         raise Refused(fn, "grow: sequential results iterator")
+    # ... and with a worker pool the results are collected in SUBMISSION order (one future per case, in the
+    # order of the batch file), whatever order they complete in
+    allowed = {"results_it = (fn(**case) for case in cases)", "results_it = (f.result() for f in fs)",
+               "results_it = progbar(results_it, total=len(cases))"}
+    if set(gens) - allowed:
+        raise Refused(fn, f"grow: results iterator {sorted(set(gens) - allowed)}")
+    subs = [ast.unparse(s) for s in ast.walk(fn) if isinstance(s, ast.Assign) and ast.unparse(s.targets[0]) == "fs"]
+    if "results_it = (f.result() for f in fs)" in gens and subs != ["fs = [executor.submit(fn, **case) for case in cases]"]:
+        raise Refused(fn, f"grow: futures are not one per case in batch order: {subs}")
     after = body[li + 1:]
     guard_ok, tuple_ok, name_ok, after_loop = False, False, False, False
     for j, s in enumerate(after):
